@@ -34,11 +34,12 @@ const modPath = "github.com/pandatix/go-cvss"
 
 // import paths that are swapped for simulated twins
 var swapped = map[string]string{
-	"sync":        modPath + "/verifsim/sync",
-	"sync/atomic": modPath + "/verifsim/atomic",
-	"time":        modPath + "/verifsim/time",
-	"runtime":     modPath + "/verifsim/runtime",
-	"math/rand":   modPath + "/verifsim/rand",
+	"sync":         modPath + "/verifsim/sync",
+	"sync/atomic":  modPath + "/verifsim/atomic",
+	"time":         modPath + "/verifsim/time",
+	"runtime":      modPath + "/verifsim/runtime",
+	"math/rand":    modPath + "/verifsim/rand",
+	"math/rand/v2": modPath + "/verifsim/randv2",
 }
 
 // imports library code may not use under the simulator
@@ -49,7 +50,6 @@ var refusedImports = map[string]string{
 	"os/exec":       "processes",
 	"os/signal":     "signals",
 	"runtime/debug": "GC / runtime control",
-	"math/rand/v2":  "unseeded randomness",
 	"crypto/rand":   "real randomness",
 	"C":             "cgo",
 	"syscall":       "system calls",
@@ -324,7 +324,11 @@ func instrumentTree(root, dst string, points bool) (*instrResult, error) {
 			if to, ok := swapped[path]; ok {
 				if is.Name == nil {
 					// keep the package identifier the file already uses
-					is.Name = ast.NewIdent(filepath.Base(path))
+					name := filepath.Base(path)
+					if path == "math/rand/v2" {
+						name = "rand"
+					}
+					is.Name = ast.NewIdent(name)
 				}
 				is.Path.Value = strconv.Quote(to)
 				res.Swaps[path]++
